@@ -25,7 +25,7 @@ func (c05) Assumptions() []string {
 		"reachability is computed on the observed wiring, so ties in candidate selection do not matter",
 	}
 }
-func (c05) NumCases(tier string) int      { return tierN(tier, 2500, 60000) }
+func (c05) NumCases(tier string) int      { return tierN(tier, 2500, 500000) }
 func (c05) MinNontrivial(tier string) int { return tierN(tier, 400, 5000) }
 
 func (p c05) Run(c *core.Ctx) {
